@@ -268,31 +268,68 @@ def replay_quadform(d):
 
 
 def o_quadform(rep, dim):
+    """Every path of chiSquareQuadraticForm (tolerance comparisons of numpy/math, should the code use them, fork on their defining formula): the value
+    is r^T y for the y with S y = r, whichever way the code computes it."""
     from resonaate.physics import statistics as ST
+    from symx.core import refute
+    from symx.ext_c01 import closeness_shadows
 
-    with single_path(recip=True) as p:
+    def run():
         r = reals("r", dim)
         S = np.empty((dim, dim), dtype=object)
         for i in range(dim):
             for j in range(i + 1):
                 S[i, j] = S[j, i] = real(f"S_{i}_{j}")
         lam = real("lam")
-        with shadow(ST, inv=inv_contract):
+        ctx = [shadow(ST, inv=inv_contract)] + closeness_shadows([ST])
+        for c in ctx:
+            c.__enter__()
+        try:
             q = ST.chiSquareQuadraticForm(r, S)
             q2 = ST.chiSquareQuadraticForm(lam * r, S)
-        X = p.apps["inv"][0][0]
-        cons = p.constraints()
-        inputs = lambda m: {"r": marray(m, r), "S": marray(m, S)}  # noqa: E731
-        # q = r^T X r with S X = I: equivalently, for y := X r we have S y = r and q = r^T y
-        y = X.dot(r)
-        rep.prove(f"quadform-solves[d={dim}]", z3.And(*[a.t == b.t for a, b in zip(S.dot(y), r)]), cons, linearize=True, inputs=inputs, replay=replay_quadform,
-                  sample="chiSquareQuadraticForm(r,S) = r^T y with S y = r")
-        rep.prove(f"quadform-value[d={dim}]", q.t == r.dot(y).t, cons, linearize=True, inputs=inputs, replay=replay_quadform, sample="value is r^T S^-1 r")
-        # both inverses are inverses of the same matrix: X2 = X (uniqueness), so scaling is lam^2
-        X2 = p.apps["inv"][1][0]
-        rep.prove(f"quadform-scales[d={dim}]", q2.t == (lam * lam * r.dot(X2.dot(r))).t, cons, linearize=True, sample="NIS of lam*r is lam^2 r^T S^-1 r")
-        rep.prove(f"inverse-unique[d={dim}]", z3.And(*[a.t == b.t for a, b in zip(X.ravel(), X2.ravel())]), cons, linearize=True, timeout_ms=60000,
-                  sample="two inverse contracts of the same matrix agree (X = X S X2 = X2)")
+        finally:
+            for c in reversed(ctx):
+                c.__exit__(None, None, None)
+        return r, S, lam, q, q2, list(cur().apps.get("inv", []))
+
+    res = explore(run, max_paths=16, recip=True)
+    n = 0
+    for k, pr in enumerate(res):
+        if pr.exc is not None:
+            rep.error(f"quadform[d={dim}]#{k}", f"raised {pr.exc!r}")
+            continue
+        r, S, lam, q, q2, invs = pr.out
+        cons = pr.constraints
+        inputs = lambda m, r=r, S=S: {"r": marray(m, r), "S": marray(m, S)}  # noqa: E731
+        tag = f"d={dim}" + (f",path {k}" if len(res) > 1 else "")
+        if len(invs) == 2:
+            # q = r^T X r with S X = I: equivalently, for y := X r we have S y = r and q = r^T y
+            X, X2 = invs[0][0], invs[1][0]
+            y = X.dot(r)
+            rep.prove(f"quadform-solves[{tag}]", z3.And(*[a.t == b.t for a, b in zip(S.dot(y), r)]), cons, linearize=True, inputs=inputs, replay=replay_quadform,
+                      sample="chiSquareQuadraticForm(r,S) = r^T y with S y = r")
+            rep.prove(f"quadform-value[{tag}]", q.t == r.dot(y).t, cons, linearize=True, inputs=inputs, replay=replay_quadform, sample="value is r^T S^-1 r")
+            # both inverses are inverses of the same matrix: X2 = X (uniqueness), so scaling is lam^2
+            rep.prove(f"quadform-scales[{tag}]", q2.t == (lam * lam * r.dot(X2.dot(r))).t, cons, linearize=True, sample="NIS of lam*r is lam^2 r^T S^-1 r")
+            rep.prove(f"inverse-unique[{tag}]", z3.And(*[a.t == b.t for a, b in zip(X.ravel(), X2.ravel())]), cons, linearize=True, timeout_ms=60000,
+                      sample="two inverse contracts of the same matrix agree (X = X S X2 = X2)")
+        else:
+            # a path that does not go through the inverse: the value must still be r^T y for the solution y of S y = r (S positive definite)
+            y = reals(f"y{k}", dim)
+            pd = [S[0, 0].t > 0] + ([S[0, 0].t * S[1, 1].t - S[0, 1].t * S[0, 1].t > 0] if dim >= 2 else [])
+            hyp = list(cons) + pd + [a.t == b.t for a, b in zip(S.dot(y), r)]
+            goal = q.t == r.dot(y).t
+            v = refute(goal, hyp, 30000)
+            if v.status == "sat":
+                # look for a counterexample whose deviation is large enough to be seen in double precision
+                vis = hyp + [z3.Or(q.t - r.dot(y).t >= rv(0.01) * r.dot(y).t, r.dot(y).t - q.t >= rv(0.01) * r.dot(y).t), r.dot(y).t >= rv(0.001)]
+                if refute(z3.BoolVal(False), vis, 30000).status == "sat":
+                    hyp = vis
+            rep.prove(f"quadform-value[{tag}]", goal, hyp, inputs=inputs, replay=replay_quadform, timeout_ms=60000, sample="value is r^T S^-1 r on every path of the function")
+            rep.prove(f"quadform-scales[{tag}]", q2.t == (lam * lam * q).t, cons, timeout_ms=60000, inputs=inputs, replay=replay_quadform, sample="NIS of lam*r is lam^2 times the NIS of r")
+        n += 1
+    if n == 0:
+        rep.error("reach", "no path")
 
 
 def o_flags(rep):
